@@ -113,6 +113,16 @@ def run_on(fb, chk, tag=""):
             a = m.sym.arg_terms(bb)[1]
             chk.check("queue_used_idx" in show(a), "Q3", tag + "set_vring_addr:next-used", "next_used <- used index currently in guest memory",
                       "next_used set from %s" % show(a)[:50], f.loc(t["line"]))
+        # ... and on every path: once the addresses were installed, the handler cannot succeed without refreshing next_used
+        qi = [bb for bb, t, c in daemon.ring_calls(fb, f, {"set_queue_info"})]
+        nu = [bb for bb, t, c in daemon.ring_calls(fb, f, {"set_queue_next_used"})]
+        if qi and nu:
+            from vlint.paths import Summariser as _S, ret_okness as _ro
+            outs_, _sy = _S(fb, no_inline=lambda g: True).paths(f)
+            skipped = [o for o in outs_ if o.ret is not None and _ro(o.ret) is True and set(o.path) & set(qi) and not set(o.path) & set(nu)]
+            chk.check(not skipped, "Q3", tag + "set_vring_addr:next-used-always", "every success path that installs the addresses also sets next_used",
+                      "SET_VRING_ADDR can succeed with the ring addresses installed but next_used left at its previous value (%d such paths): "
+                      "the used index now in guest memory is not picked up" % len(skipped), f.loc())
         # translation happens only when a memory table is present
     f = ch.get("set_vring_base")
     if f:
@@ -171,6 +181,22 @@ def run_on(fb, chk, tag=""):
         ok_af = len(af) == 1 and field_of(m.sym.arg_terms(af[0][0])[1])[1] == "acked_features" if af else False
         chk.check(ok_af, "Q4", tag + "acked-to-backend", "backend.acked_features(self.acked_features)", "backend does not receive the acked features", f.loc())
         # order: the notifications come after the store
+    # protocol features: the handler records exactly what the frontend acknowledged (the offer the frontend saw includes
+    # bits added by the protocol layer, e.g. REPLY_ACK, so masking with the device's own set would drop them)
+    f = ch.get("set_protocol_features")
+    if f:
+        chk.fn_seen(f)
+        m = must_of(fb, f)
+        ws = [w for w in field_writes(f) if w["field"] == "acked_protocol_features"]
+        okp = len(ws) == 1
+        detail = ""
+        for w in ws:
+            rv = m.sym.rvalue(w["rv"])
+            detail = show(rv)[:80]
+            okp = okp and rv[0] == "param" and rv[2] == "features"
+        chk.check(okp, "Q4", tag + "proto-store", "acked_protocol_features := features",
+                  "acked protocol features are stored as %s, not as the acknowledged value: a later backend-request channel does not "
+                  "inherit the negotiated settings" % (detail or "nothing"), f.loc())
     # ------------------------------------------------------------------ Q5
     f = ch.get("set_backend_req_fd")
     if f:
